@@ -120,6 +120,9 @@ pub enum Op {
     Call(Outcome),
     Poll(usize),
     Drop(usize),
+    /// time passes while requests are in flight (longer than the statistic window): nothing in the
+    /// statement depends on how long the inner call takes
+    Advance(u64),
 }
 
 type Fut = Pin<Box<dyn Future<Output = Result<u32, BoxError>> + Send>>;
@@ -230,6 +233,9 @@ impl Subject for C20 {
         for j in 0..self.live.len() {
             v.push(Op::Drop(j));
         }
+        if !self.live.is_empty() {
+            v.push(Op::Advance(11_000));
+        }
         v
     }
     fn step(&mut self, op: &Op) -> Result<(), String> {
@@ -329,6 +335,10 @@ impl Subject for C20 {
                         }
                     }
                 }
+            }
+            Op::Advance(d) => {
+                advance_ms(*d);
+                self.check_counts("time passing")
             }
             Op::Drop(j) => {
                 let l = self.live.remove(*j);
